@@ -139,6 +139,69 @@ Proof.
     + apply Nat.eqb_neq in E. tauto.
 Qed.
 
+Lemma spec_value_source : forall h orig kw f,
+  spec_value h orig kw f =
+  match spec_source h orig kw f with
+  | SKw v | SOrig v | SDefault v => Some (h, v)
+  | SFactory k => Some (h ++ [mkObj k [] []], VRef (List.length h))
+  | SNone => None
+  end.
+Proof.
+  intros. unfold spec_value, spec_source.
+  destruct (if f_init f then lookup kw (f_name f) else None); [reflexivity|].
+  destruct (if f_init f then match orig with Some r0 => getattr h r0 (f_name f) | None => None end else None); [reflexivity|].
+  destruct (f_default f); reflexivity.
+Qed.
+
+(* an init=False field without default gets no attribute in __init__ *)
+Lemma build_attrs_none : forall fs kw st st' attrs,
+  build_attrs fs kw st = (st', Ok attrs) -> NoDup (map f_name fs) ->
+  forall f, In f fs -> f_init f = false -> f_default f = DNone -> lookup attrs (f_name f) = None.
+Proof.
+  induction fs as [|g fs IH]; intros kw st st' attrs H ND f Hf Hi Hd; [destruct Hf|].
+  simpl in H. unfold bindM in H at 1. destruct (field_value g kw st) as [s1 [ov|e]] eqn:E1; [|discriminate].
+  unfold bindM in H at 1. destruct (build_attrs fs kw s1) as [s2 [rest|e]] eqn:E2; [|discriminate].
+  unfold ret in H. inversion H. subst st' attrs. clear H.
+  simpl in ND. inversion ND as [|? ? Hnin ND']. subst.
+  destruct (build_attrs_spec _ _ _ _ _ E2 ND') as [IHn _].
+  destruct Hf as [Hf|Hf].
+  - subst g. unfold field_value, from_default in E1. rewrite Hi, Hd in E1. inversion E1. subst ov.
+    destruct (lookup rest (f_name f)) eqn:El; [|reflexivity]. exfalso. apply Hnin. apply IHn. congruence.
+  - assert (Hne : Nat.eqb (f_name g) (f_name f) = false).
+    { apply Nat.eqb_neq. intro Heq. apply Hnin. rewrite Heq. now apply in_map. }
+    destruct ov; [rewrite lookup_cons, Hne|]; eapply IH; eassumption.
+Qed.
+
+(* the attributes of the candidate, from the arguments the generated __init__ received *)
+Lemma candidate_fields : forall C args st0 st1 r,
+  candidate C args st0 = (st1, Ok r) ->
+  forall f, In f (dc_fields C) ->
+    (f_init f = true -> forall v, lookup args (f_name f) = Some v -> getattr (s_heap st1) r (f_name f) = Some v) /\
+    (f_init f && is_some (lookup args (f_name f)) = false ->
+       match f_default f with
+       | DVal v => getattr (s_heap st1) r (f_name f) = Some v
+       | DFactory k => exists q, getattr (s_heap st1) r (f_name f) = Some (VRef q) /\ List.length (s_heap st0) <= q /\
+                                 nth_error (s_heap st1) q = Some (mkObj k [] [])
+       | DNone => getattr (s_heap st1) r (f_name f) = None
+       end).
+Proof.
+  intros C args st0 st1 r H f Hf.
+  destruct (candidate_spec _ _ _ _ _ H) as [D [attrs [ext [HD [HB [Hh [Hr [Hj [Hu Hm]]]]]]]]].
+  destruct (build_attrs_spec _ _ _ _ _ HB (dc_fields_nodup C)) as [_ BF]. destruct (BF f Hf) as [B1 [_ [B3 B4]]].
+  assert (Hget : getattr (s_heap st1) r (f_name f) = lookup attrs (f_name f)) by (rewrite Hh, Hr; apply getattr_new).
+  rewrite Hget. split; [exact B1|]. intro Hn. destruct (f_default f) as [|v|k] eqn:Ed.
+  - destruct (f_init f) eqn:Ei.
+    + exfalso. simpl in Hn. unfold kw_missing in Hm.
+      assert (X : existsb (fun f0 => f_init f0 && is_dnone (f_default f0) && negb (mem (f_name f0) (map fst args))) (dc_fields C) = true).
+      { apply existsb_exists. exists f. split; [assumption|]. rewrite Ei, Ed, lookup_mem. simpl.
+        destruct (lookup args (f_name f)); [discriminate|reflexivity]. }
+      congruence.
+    + eapply build_attrs_none; try eassumption. apply dc_fields_nodup.
+  - now apply B3.
+  - destruct (B4 Hn k eq_refl) as [q [Q1 [Q2 Q3]]]. exists q. split; [assumption|]. split; [assumption|].
+    rewrite Hh. simpl in Q3. rewrite nth_error_app1; [assumption|]. apply nth_error_Some. congruence.
+Qed.
+
 Section Succeeds.
   Variable defs : list (dparam * bool).
   Let P := ref_prog defs.
@@ -211,6 +274,79 @@ Section Succeeds.
         now exists f.
       + intros f Hf Hi. apply dict_merge_keys. left. apply Hcur. now exists f.
       + eapply candidate_ok; eassumption.
+  Qed.
+
+  (* the candidate holds, field by field, what the property text says the new object gets (Spec.spec_source / spec_value):
+     the keyword value; else, for the copy methods, the original's value (the very object for copy_with, its deep copy for
+     deep_copy_with); else the default (a fresh empty object for a default_factory); else nothing *)
+  Lemma path_candidate_fields : forall C p st st1 r,
+    path_candidate P C p st = (st1, Ok r) ->
+    (forall r0 kw, p = ByDeep r0 kw -> r0 < List.length (s_heap st) /\ NoDup (map fst kw)) ->
+    forall f, In f (dc_fields C) ->
+    match spec_source (s_heap st) (path_orig p) (path_kw p) f with
+    | SKw v | SDefault v => getattr (s_heap st1) r (f_name f) = Some v
+    | SOrig v =>
+      match p with
+      | ByDeep _ _ => exists v', getattr (s_heap st1) r (f_name f) = Some v' /\ is_deepcopy (s_heap st) (s_heap st1) v v'
+      | _ => getattr (s_heap st1) r (f_name f) = Some v
+      end
+    | SFactory k => exists q, getattr (s_heap st1) r (f_name f) = Some (VRef q) /\ List.length (s_heap st) <= q /\
+                              nth_error (s_heap st1) q = Some (mkObj k [] [])
+    | SNone => getattr (s_heap st1) r (f_name f) = None
+    end.
+  Proof.
+    intros C p st st1 r Hc Hdeep f Hf. unfold path_candidate in Hc. unfold bindM in Hc.
+    destruct (path_args P C p st) as [s0 [args|e]] eqn:Ea; [|discriminate].
+    destruct (candidate_fields C args s0 st1 r Hc f Hf) as [G1 G2].
+    assert (HD : exists D, nearest_deco C = Some D).
+    { destruct (candidate_spec _ _ _ _ _ Hc) as [D [_ [_ [HD _]]]]. now exists D. }
+    destruct HD as [D HD].
+    (* the default branch, shared by the three paths *)
+    assert (Gdef : f_init f && is_some (lookup args (f_name f)) = false -> List.length (s_heap st) <= List.length (s_heap s0) ->
+                   match f_default f with
+                   | DVal v => getattr (s_heap st1) r (f_name f) = Some v
+                   | DFactory k => exists q, getattr (s_heap st1) r (f_name f) = Some (VRef q) /\ List.length (s_heap st) <= q /\
+                                             nth_error (s_heap st1) q = Some (mkObj k [] [])
+                   | DNone => getattr (s_heap st1) r (f_name f) = None
+                   end).
+    { intros Hn Hle. specialize (G2 Hn). destruct (f_default f); try assumption.
+      destruct G2 as [q [Q1 [Q2 Q3]]]. exists q. split; [assumption|]. split; [lia|assumption]. }
+    unfold spec_source. destruct p as [kw|r0 kw|r0 kw]; cbn [path_orig path_kw path_args] in *.
+    - (* constructor *)
+      unfold ret in Ea. inversion Ea. subst s0 args. destruct (f_init f) eqn:Ei.
+      + destruct (lookup kw (f_name f)) as [v|] eqn:El; [now apply G1|].
+        assert (X := Gdef eq_refl (le_n _)). destruct (f_default f); exact X.
+      + assert (X := Gdef eq_refl (le_n _)). destruct (f_default f); exact X.
+    - (* copy_with: dataclasses.replace *)
+      destruct (replace_changes_spec _ _ _ _ _ _ _ Ea) as [Hs [RA [RB _]]]. subst s0.
+      destruct (f_init f) eqn:Ei.
+      + destruct (lookup kw (f_name f)) as [v|] eqn:El.
+        * apply G1; [reflexivity|]. rewrite RA; congruence.
+        * destruct (RB f Hf Ei El) as [R1 R2]. destruct (getattr (s_heap st) r0 (f_name f)) as [w|] eqn:Eg; [|congruence].
+          now apply G1.
+      + assert (X := Gdef eq_refl (le_n _)). destruct (f_default f); exact X.
+    - (* deep_copy_with *)
+      destruct (Hdeep r0 kw eq_refl) as [Hr Hnd].
+      unfold deep_args in Ea. rewrite HD, (nearest_deco_fields _ _ HD) in Ea.
+      change (d_filter_init (p_deep P)) with true in Ea. change (d_merge (p_deep P)) with MergeKwLast in Ea. cbv iota in Ea.
+      unfold bindM in Ea. destruct (current_values P (filter f_init (dc_fields C)) r0 st) as [s1 [cur|e]] eqn:Ec; [|discriminate].
+      unfold ret in Ea. inversion Ea. subst s0 args. clear Ea.
+      assert (Hst : exists e0, s_heap st = s_heap st ++ e0) by (exists []; now rewrite app_nil_r).
+      destruct (current_values_spec defs _ _ _ _ _ _ Hr Hst Ec) as [CV1 CV2].
+      destruct (grows_current_values P _ _ _ _ _ Ec) as [e1 He1].
+      assert (Hle : List.length (s_heap st) <= List.length (s_heap s1)) by (rewrite He1, app_length; lia).
+      assert (Largs : forall n, lookup (dict_merge cur kw) n = match lookup kw n with Some v => Some v | None => lookup cur n end)
+        by (intro n; now apply lookup_dict_merge).
+      destruct (f_init f) eqn:Ei.
+      + destruct (lookup kw (f_name f)) as [v|] eqn:El.
+        * apply G1; [reflexivity|]. now rewrite Largs, El.
+        * assert (Hin : In (f_name f) (map fst cur)).
+          { rewrite CV1. apply in_map. apply filter_In. split; assumption. }
+          destruct (lookup cur (f_name f)) as [v'|] eqn:Ecur; [|exfalso; apply lookup_none_notin in Ecur; contradiction].
+          destruct (CV2 _ _ (lookup_some_in _ _ _ _ Ecur)) as [v [V1 V2]]. rewrite V1.
+          exists v'. split; [apply G1; [reflexivity|]; now rewrite Largs, El|].
+          destruct (grows_candidate C (dict_merge cur kw) _ _ _ Hc) as [e3 He3]. rewrite He3. now apply is_deepcopy_later.
+      + assert (X := Gdef eq_refl Hle). destruct (f_default f); exact X.
   Qed.
 
   (* the path returns an instance iff __post_init__ (user hooks, checks) accepts the candidate; classes whose generated
